@@ -5,6 +5,7 @@ import listing as L
 import label as LB
 import hexr as H
 import nx as NX
+import sz as SZ
 
 CONTAINERS = "emap 0.0.13 / micromap 0.0.19 / microstack 0.0.7 as audited (DESIGN §3)"
 HAND = "hand argument DESIGN §5.0: rules ⇒ invariants I1–I3 ⇒ statement"
@@ -118,6 +119,24 @@ PROPS = {
         "rules": [("CL1/CL4", NX.cl1), ("CL2/CL3", NX.cl23)],
         "explanation": "CL1 field-wise provenance (floor 4), CL2 derived Clone on 4 types, CL3 type closure, CL4 no write.",
         "trusted": [RUSTC, CONTAINERS],
+        "assumptions": [],
+    },
+    "C08": {
+        "claim": "Decides the per-field and writer/reader clauses SZ1–SZ5, each a necessary condition of the round trip: the serialized-field inventory read from the derived impls' MIR is every field of Sodg and Vertex and every variant/payload of Hex, Label, Persistence, written unconditionally from the field itself and restored from the same position, the only omission being Sodg::next_v (omitted on both sides, rebuilt by Default); the ten impls are derived; save() serialises self whole and writes exactly those bytes to the path; load() decodes the whole file and returns that value unmodified; both use the same bincode configuration. Does not decide equality of behaviour under every continuation.",
+        "note": "Trusted: rustc front end + engine; serde derive output semantics; bincode 1.3.3; the containers' Serialize/Deserialize pairs (read). Behavioural equivalence under all continuations is not decided.",
+        "technique": "MIR inventory of derive-expanded serde impls + writer/reader agreement + provenance in save/load",
+        "rules": [("SZ1", SZ.sz1), ("SZ2", SZ.sz2), ("SZ3-5", SZ.sz345)],
+        "explanation": "SZ1 field/variant inventory on both sides, SZ2 derived impls (floor 10), SZ3 save, SZ4 load, SZ5 codec pair.",
+        "trusted": [RUSTC, CONTAINERS, "serde derive, bincode 1.3.3"],
+        "assumptions": ["merges restricted to trees (no emptied slot, DESIGN §4)"],
+    },
+    "C09": {
+        "claim": "Decides the sodg-side premises of the prefix argument (DESIGN C09): in load() the results of the file read and of the decode are only propagated (no unwrap/expect/ok()/unwrap_or*), the only Ok(..) returned is reached through their success edges and carries the value decoded from the complete byte vector, and every Deserialize in the closure of Sodg is derived with no field defaulted other than next_v (which consumes no input). With bincode's left-to-right slice reader (trusted) a proper prefix of a valid image then yields UnexpectedEof, i.e. Err.",
+        "note": "Trusted: bincode 1.3.3 slice reader (every missing byte is UnexpectedEof, length prefixes checked before allocating) and the container visitors, as read; the hand argument 'prefix determinism ⇒ C09'.",
+        "technique": "MIR error-discipline rule on load() + derived-impl inventory",
+        "rules": [("LD1/LD2", SZ.ld12), ("SZ1", SZ.sz1), ("SZ2", SZ.sz2), ("SZ4", SZ.sz345)],
+        "explanation": "LD1 results only propagated, LD2 single Ok through success edges, SZ1/SZ2 derived readers without defaulted fields, SZ4 whole-file decode.",
+        "trusted": [RUSTC, "bincode 1.3.3 slice reader", CONTAINERS],
         "assumptions": [],
     },
 }
